@@ -1253,6 +1253,9 @@ func (d *dealer) syncRemoveSession(sess *wamp.Session) []*wamp.Publish {
 		if errArgs == nil {
 			errArgs = wamp.List{"callee gone"}
 		}
+		// A kill-mode CANCEL may be waiting for the callee's answer, which
+		// can no longer arrive. Make sure the call is ended now.
+		invk.canceled = false
 		// Use CancelModeSkip so as not to send an INTERRUPT to a callee that
 		// is no longer there.
 		d.syncCancel(caller, &wamp.Cancel{Request: invk.callID.request},
